@@ -1152,6 +1152,18 @@ func main() {
 			must(err)
 			b.WriteString(leanStrList(sp.lean, sh))
 		}
+		// pkg/sleep: control / atomic-operation skeleton of the functions the interleaving model mirrors
+		{
+			sp := load("pkg/sleep")
+			for _, f := range []struct{ lean, recv, fn string }{
+				{"sleep_nextWaker", "Sleeper", "nextWaker"}, {"sleep_Fetch", "Sleeper", "Fetch"},
+				{"sleep_enqueue", "Sleeper", "enqueueAssertedWaker"}, {"sleep_Assert", "Waker", "Assert"}, {"sleep_Clear", "Waker", "Clear"},
+			} {
+				sh, err := sp.atomShape(f.recv, f.fn)
+				must(err)
+				b.WriteString(leanStrList(f.lean, sh))
+			}
+		}
 		// ipv4: how the identifier of an outgoing packet is chosen
 		{
 			sh, err := ip4.mentionShape("endpoint", "WritePacket", "id")
